@@ -35,7 +35,10 @@ CHECKS = {
              "state-stack loop offers, for EVERY input, exactly the specification's list), C07_alternatives_complete (all and only the "
              "matching (rule,length) pairs), C07_alternatives_ordered (decreasing length, then rule order), refusal with -Cf/-CF. "
              "Compiled scanners with rejecting actions (REJECT and yyreject() spellings, 4 back ends) are compared event by event with "
-             "the specification's walk and with the walk over the emitted yy_acclist.",
+             "the specification's walk and with the walk over the emitted yy_acclist. REJECT inside rules with variable trailing context: "
+             "C07_validated_events_are_documented (the proved validator accepts only walks through the alternatives in order, every action "
+             "handed a documented head of its match), C07_walk_skips_no_alternative, C07_variable_head_from_tables (for checked tables the "
+             "head the find_rule loop settles on is, for EVERY input, a prefix matched by the head pattern).",
         design="DESIGN.md section 6 C07", technique="machine-checked proof (Rocq) + lock-step on emitted yy_acclist + differential event streams"),
     "C03": dict(
         text="Rocq theorems about the window machine (the control flow of refills, coq/Window.v): C03_scan_independent_of_chunking and "
